@@ -235,7 +235,7 @@ def draw_envs(info, rng, n):
     addr_pool = ["ZERO", "CREATOR", FRESH] + sorted(info.addr_lits)
     fee_vals = info.num_values(0, MAXU64, (0, 1000, MAXCOST, MAXCOST + 1, MAXU64))
     opaque_vals = info.num_values(0, 2**32, (0, 1))
-    kinds = [(t, oc, a) for t in range(1, 7) for oc in (range(0, 6) if t == 6 else (0,)) for a in ((0, 7) if t == 6 else (0,))]
+    kinds = [(t, oc, a) for t in range(1, 7) for oc in (range(0, 6) if t == 6 else (0,)) for a in ((0, 7, 1234) if t == 6 else (0,))]
     allf = set(info.stack_fields)
     for fs in info.reads.values():
         allf |= fs
